@@ -719,6 +719,8 @@ class Messenger(Connection):
 
             try:  # Allow rejection from any of these via RejectError
                 if msgcls == messages.SessionInit:
+                    if self._in_sess:
+                        raise RejectError(messages.RejectMsg.Reason.UNEXPECTED)
                     if self._as_passive:
                         # After initial validation send reply
                         self._sessinit_this = self.send_sess_init().payload
